@@ -114,6 +114,13 @@ impl<T: High + Low + Close + Volume> Next<&T> for MoneyFlowIndex {
             } else {
                 self.total_negative_money_flow += popped;
             }
+            // cancellation can leave a slightly negative total behind
+            if self.total_positive_money_flow < 0.0 {
+                self.total_positive_money_flow = 0.0;
+            }
+            if self.total_negative_money_flow < 0.0 {
+                self.total_negative_money_flow = 0.0;
+            }
         }
 
         if tp > self.previous_typical_price {
